@@ -1061,6 +1061,9 @@ pub fn run(run: &Run) {
     run.random("random", n, 300, &*find_sub(&subs, "random").unwrap().f);
     let n = run.tier.pick(100_000, 1_000_000);
     run.random("random-values", n, 120, &*find_sub(&subs, "random-values").unwrap().f);
+    if run.tier == Tier::Thorough {
+        fuzz_campaign_sub(run, "choices", Some(("random", &*find_sub(&subs, "random").unwrap().f)), 8, 150_000, 1200, None);
+    }
 }
 
 /// Inputs of the matrices that the documented rules accept (seed corpus for fuzzing).
